@@ -18,3 +18,8 @@ check("C15",
       "Exploration: every generated history is applied to the real ClusterState (through the cluster worker's update and maintenance entry points) and to a list model; ranges, replica identity, full and per-DC lookups compared after every step. Insert-only histories over a 6-point universe enumerated exhaustively to length 3/4.",
       "Trusted: the list model written from the property statement; payloads produced by the reference encoder. Uses hook-built (pool-less) nodes.",
       "DESIGN.md 2/C15")
+check("C19",
+      "model-based (stateful) property testing at poll granularity: exhaustive DFS over producer/consumer histories with a counting waker against a slot model; multi-threaded stress",
+      "Exploration: every legal history of producer/consumer steps up to length 8 (quick) / 10 (thorough) is enumerated against the real channel, longer random ones sampled; what each poll may return and when a parked waker must have fired is decided by a reference model. A 2-thread stress checks that the concatenation of received batches equals the sequence merged.",
+      "Trusted: the slot model and counting waker. Preemption points inside modify()/recv() are reached only by the stress (not enumerated); the user-visible refresh_metadata() half is exercised by the mock-cluster checks.",
+      "DESIGN.md 2/C19")
